@@ -15,6 +15,7 @@ import (
 	"encoding/json"
 	"flag"
 	"fmt"
+	"math/rand"
 	"os"
 	"runtime"
 	"sort"
@@ -116,7 +117,19 @@ func (c *coop) enabled(t *ctask) bool {
 	case verifrt.OpLock:
 		return l.writer == 0 && len(l.readers) == 0
 	case verifrt.OpRLock:
-		return l.writer == 0
+		if l.writer != 0 {
+			return false
+		}
+		// Go's RWMutex: a writer that is waiting (it called Lock while readers hold the mutex)
+		// blocks readers that arrive later
+		if len(l.readers) > 0 {
+			for _, o := range c.byGoid {
+				if o != t && o.state == "parked" && o.want != nil && o.want.Op == verifrt.OpLock && o.want.Mu == t.want.Mu {
+					return false
+				}
+			}
+		}
+		return true
 	}
 	return true
 }
@@ -147,7 +160,7 @@ type blockRun struct {
 
 // runBlock executes the tasks under the cooperative scheduler following `prefix`
 // (then: keep running the current task while it is enabled, else the lowest id).
-func (w *World) runBlock(tasks []*ctask, prefix []int) blockRun {
+func (w *World) runBlock(tasks []*ctask, prefix []int, rng *rand.Rand) blockRun {
 	c := newCoop()
 	verifrt.SetInterceptorMask(c, verifrt.MaskAll)
 	defer verifrt.SetInterceptorMask(w.ev, 1<<uint(verifrt.OpRUnlock))
@@ -216,6 +229,16 @@ func (w *World) runBlock(tasks []*ctask, prefix []int) blockRun {
 			}
 			if !ok {
 				choice = en[0] // the prefix does not apply (outcome-dependent control flow): fall back
+			}
+		} else if rng != nil {
+			// random schedules: mostly keep running the current task, sometimes switch
+			choice = en[rng.Intn(len(en))]
+			if rng.Intn(3) != 0 {
+				for _, e := range en {
+					if e == cur {
+						choice = cur
+					}
+				}
 			}
 		} else {
 			for _, e := range en {
@@ -298,6 +321,8 @@ type ConcScenario struct {
 	P      int     `json:"p"`     // preemption bound
 	Max    int     `json:"max"`   // schedules at most
 	Sched  [][]int `json:"sched"` // explicit schedules to replay (instead of the search)
+	Random int     `json:"random"` // > 0: this many random schedules instead of the bounded search
+	Seed   int64   `json:"seed"`
 }
 
 func preemptions(ds []decision) int {
@@ -314,7 +339,7 @@ func preemptions(ds []decision) int {
 	return n
 }
 
-func (sc *ConcScenario) once(prefix []int) ([]M, blockRun) {
+func (sc *ConcScenario) once(prefix []int, rng *rand.Rand) ([]M, blockRun) {
 	w := NewWorld(sc.Config)
 	defer w.Shutdown()
 	n := 0
@@ -337,7 +362,7 @@ func (sc *ConcScenario) once(prefix []int) ([]M, blockRun) {
 		w.conn(t.conn)
 	}
 	w.out = map[int][]M{}
-	br := w.runBlock(tasks, prefix)
+	br := w.runBlock(tasks, prefix, rng)
 	n++
 	rec := M{"k": "step", "i": n, "step": "Block", "conn": 0, "req": M{"k": "none"}}
 	var reqs []any
@@ -449,7 +474,13 @@ func cmdL1c(args []string) {
 		}
 		if len(sc.Sched) > 0 {
 			for _, s := range sc.Sched {
-				rec, br := sc.once(s)
+				rec, br := sc.once(s, nil)
+				emit(rec, br)
+			}
+		} else if sc.Random > 0 {
+			rng := rand.New(rand.NewSource(sc.Seed))
+			for i := 0; i < sc.Random; i++ {
+				rec, br := sc.once(nil, rng)
 				emit(rec, br)
 			}
 		} else {
@@ -459,7 +490,7 @@ func cmdL1c(args []string) {
 			for len(stack) > 0 && nrun < sc.Max {
 				prefix := stack[len(stack)-1]
 				stack = stack[:len(stack)-1]
-				rec, br := sc.once(prefix)
+				rec, br := sc.once(prefix, nil)
 				emit(rec, br)
 				for i := len(prefix); i < len(br.decisions); i++ {
 					d := br.decisions[i]
